@@ -44,7 +44,7 @@ def main():
 
     # ------------------------------------------------------------------ llh2xyz
     P.log('llh2xyz')
-    paths = E.explore(lambda: cv.llh2xyz(lat, lon, h, ell), pre)
+    paths = E.explore(lambda: cv.llh2xyz(lat, lon, h, ell), pre, history=True, label="convert.llh2xyz")
     if len(paths) < 1 or any(p['kind'] != 'ret' for p in paths):
         raise S.EngineError('llh2xyz: unexpected path set %r' % [(p['kind'], p['val']) for p in paths if p['kind'] != 'ret'])
     sx = geo.geodetic_to_cart(lat.t, lon.t, h.t, lift(ell.semimaj), lift(ell.inversef), MSym)
@@ -122,7 +122,7 @@ def main():
         return tuple(out)
     xyz2llh_cut = E.cut_loops(cv.xyz2llh, cv, summary)
     prex = vell + [X.t * X.t + Y.t * Y.t > 0]
-    paths2 = E.explore(lambda: xyz2llh_cut(X, Y, Z, ell), prex)
+    paths2 = E.explore(lambda: xyz2llh_cut(X, Y, Z, ell), prex, label="convert.xyz2llh")
     kinds = sorted(p['kind'] for p in paths2)
     if 'loopback' not in kinds or 'ret' not in kinds:
         raise S.EngineError('xyz2llh: loop cut produced path kinds %r' % kinds)
@@ -173,6 +173,10 @@ def main():
     P.summaries.append('LOOP_xyz2llh_lat / LOOP_xyz2llh_itercheck: loop summary, uninterpreted functions of the loop read-set')
 
     # ------------------------------------------------------------------ Layer B
+    # ---------------------------------------------------------------- the object API named as an observation point (props/coordlib.py)
+    from . import coordlib
+    m2 = E.load_repo(tuple(CORE) + ('geodepy.coord',))
+    coordlib.wiring(P, m2, sym_ellipsoid(m2['geodepy.constants']), sym_projection(m2['geodepy.constants']), ('CoordGeo.cart', 'CoordCart.geo'))
     B.report(P, 'bounded.C03')
     P.finish('proof')
 
